@@ -144,6 +144,37 @@ Theorem aggregate_dendrogram_returns n D nc rc :
 Proof. exact (aggregate_dendrogram_total n D nc rc). Qed.
 Print Assumptions aggregate_dendrogram_returns.
 
+(** 5b. return_dendrogram = True: every admissible call returns, together with the labels, a dendrogram that is
+    valid over the clusters (leaf l standing for the [cluster_size labels l] samples of cluster l, so the
+    size column counts original samples and the last size is n), whose heights are exactly the heights of the
+    merges of the input that join leaves of different clusters ([unmerged_rows]), in the same order. *)
+Theorem reduced_dendrogram_valid argsort n D0 D nc th sort :
+  cut_input D0 true = Ok D -> valid n D = true -> 2 <= n -> argsort_ok argsort ->
+  match nc with Some k => 1 <= k <= n | None => True end ->
+  exists labels Dnew,
+    cut_straight argsort D0 nc th sort true = Ok (labels, Some Dnew) /\
+    let ws := map (cluster_size labels) (seq 0 (num_clusters labels)) in
+    validw ws Dnew = true /\ sumn ws = n /\
+    heights Dnew = heights (unmerged_rows n D labels).
+Proof. exact (cut_straight_reduced argsort n D0 D nc th sort). Qed.
+Print Assumptions reduced_dendrogram_valid.
+
+Theorem cut_balanced_reduced_dendrogram_valid argsort n D m sort :
+  valid n D = true -> argsort_ok argsort -> 2 <= m <= n ->
+  exists labels Dnew,
+    cut_balanced argsort D m sort true = Ok (labels, Some Dnew) /\
+    let ws := map (cluster_size labels) (seq 0 (num_clusters labels)) in
+    validw ws Dnew = true /\ sumn ws = n /\
+    heights Dnew = heights (unmerged_rows n D labels).
+Proof. exact (cut_balanced_reduced argsort n D m sort). Qed.
+Print Assumptions cut_balanced_reduced_dendrogram_valid.
+
+Theorem cut_balanced_returns argsort n D m sort ret :
+  valid n D = true -> argsort_ok argsort -> 2 <= m <= n ->
+  exists labels od, cut_balanced argsort D m sort ret = Ok (labels, od).
+Proof. exact (cut_balanced_total argsort n D m sort ret). Qed.
+Print Assumptions cut_balanced_returns.
+
 (** The stable argsort meets the oracle contract (the hypotheses above are satisfiable). *)
 Theorem argsort_contract_satisfiable : argsort_ok stable_argsort.
 Proof. exact stable_argsort_ok. Qed.
